@@ -268,8 +268,9 @@ instance (langs) : (o : Option Field) → Decidable (LangsWFOf langs o)
 def LangsWF (h : ReqHead) : Prop := LangsWFOf h.langs (firstField h.fields "accept-language")
 instance (h) : Decidable (LangsWF h) := by unfold LangsWF; exact inferInstance
 
-/-- A well-formed request head within the parser's documented limits. A request carries at most
-one Cookie field (RFC 6265 §5.4) and one Referer field (RFC 7230 §3.2.2). -/
+/-- A well-formed request head within the parser's documented limits. Header names may repeat, also
+Cookie and Referer: the cookies of every Cookie line are reported, in wire order; Referer is
+single-valued, and for a repeated Referer "split out" is read as: the value of the last line. -/
 def WFReq (h : ReqHead) : Prop :=
   h.method ∈ supportedMethods.map ascii ∧
   h.target ≠ [] ∧ h.target.all isVchar = true ∧
@@ -277,7 +278,6 @@ def WFReq (h : ReqHead) : Prop :=
   (requestLine h).length ≤ maxLine ∧
   h.fields.length ≤ maxFields ∧
   (∀ f ∈ h.fields, FieldWF f) ∧
-  countFields h.fields "cookie" ≤ 1 ∧ countFields h.fields "referer" ≤ 1 ∧
   LangsWF h
 
 instance (h) : Decidable (WFReq h) := by unfold WFReq; exact inferInstance
@@ -318,9 +318,10 @@ def cookieOf (p : Bytes × Nat) : Cookie :=
 
 def cookiesOf (v : Bytes) : List Cookie := (cookiePieces v).zipIdx.map cookieOf
 
-def cookiesOfField : Option Field → List Cookie
-  | some f => cookiesOf f.value
-  | none => []
+/-- the cookie pairs of every Cookie line, in wire order, numbered through -/
+def cookiesOfLines (vs : List Bytes) : List Cookie := (vs.flatMap cookiePieces).zipIdx.map cookieOf
+
+def fieldsNamed (fs : List Field) (s : String) : List Field := fs.filter (fun f => ciEq f.name s)
 
 /-- p0f: `?name` for optional headers, `name` alone for identity-bearing ones, `name=[value]` otherwise -/
 def sigEntry (isReq : Bool) (h : Hdr) : SigHdr :=
@@ -381,8 +382,8 @@ def reportReq (h : ReqHead) : ObsReq :=
     lang := langOf h,
     userAgent := ua,
     headers := hs,
-    cookies := cookiesOfField (firstField h.fields "cookie"),
-    referer := (firstField h.fields "referer").map (·.value),
+    cookies := cookiesOfLines ((fieldsNamed h.fields "cookie").map (·.value)),
+    referer := (fieldsNamed h.fields "referer").getLast?.map (·.value),
     method := h.method,
     uri := h.target }
 
